@@ -20,8 +20,8 @@
    insert(i, v): _on_add(v) ; list.insert                                  record ; py_insert
    __setitem__(i, v): _on_add(v) FIRST ; list.__setitem__ (IndexError      record even when the index is bad
                is raised after the relation was recorded)
-   __setitem__(slice, v): v = list(v) FIRST (v may be a one-shot           materialise ; record ; py_setslice
-               iterator) ; _on_add(v) ; list.__setitem__ *)
+   __setitem__(slice, v): v = [_on_add(e) for e in v] (drains a one-shot   materialise ; record EACH element ; py_setslice
+               iterator once, records per element) ; list.__setitem__ *)
 From Coq Require Import List Bool Arith ZArith Lia.
 From Krrood Require Import Onto.ContainerSpec.
 Import ListNotations.
@@ -59,10 +59,10 @@ Definition step (k : kind) (o : op) (s : cst) : cst * bool :=
       | Some l' => ({| items := l'; rec := rec s ++ [x] |}, false)
       | None => ({| items := items s; rec := rec s ++ [x] |}, true)
       end
-  | KList, SetSlice i j vs =>   (* value = list(value); _on_add(value): make_set(value) records each element; list.__setitem__ *)
+  | KList, SetSlice i j vs =>   (* value = [self._on_add(v) for v in value]: every element recorded on its own; list.__setitem__ *)
       ({| items := py_setslice i j vs (items s); rec := rec s ++ vs |}, false)
   | KList, SetSliceIter i j vs =>
-      let values := materialise (OneShot vs) s in   (* list(value): the iterator is drained exactly once, here *)
+      let values := materialise (OneShot vs) s in   (* the comprehension drains the iterator exactly once, recording as it goes *)
       ({| items := py_setslice i j values (items s); rec := rec s ++ values |}, false)
   | KList, ExtendSelf =>
       let values := materialise LiveIt s in         (* list(items) with items the live list: a snapshot *)
@@ -99,6 +99,21 @@ Fixpoint extend_live (fuel : nat) (i : nat) (s : cst) : option cst :=
 (* old slice assignment of a generator: _on_add(value) -> make_set(value) drained the iterator, list.__setitem__ got nothing *)
 Definition setslice_gen_old (i j : Z) (vs : list elt) (s : cst) : cst :=
   {| items := py_setslice i j [] (items s); rec := rec s ++ vs |}.
+
+(* old slice assignment (before b78c5e4): the whole list went to _on_add; add_relation_to_the_graph iterated make_set(list), which
+   keeps ONE object per ==-class (the first), while the symbol graph identifies objects by identity.
+   Elements are IDENTITIES; [cls x] is the ==-class of x. *)
+Section OldSliceRecording.
+Variable cls : elt -> nat.
+Fixpoint make_set_keep (seen : list nat) (vs : list elt) : list elt :=
+  match vs with
+  | [] => []
+  | x :: r => if existsb (Nat.eqb (cls x)) seen then make_set_keep seen r
+              else x :: make_set_keep (cls x :: seen) r
+  end.
+Definition setslice_whole_old (i j : Z) (vs : list elt) (s : cst) : cst :=
+  {| items := py_setslice i j vs (items s); rec := rec s ++ make_set_keep [] vs |}.
+End OldSliceRecording.
 
 (* ---- a write path OUTSIDE the proved fragment (known finding C16-d) ------------------------------------------ *)
 (* K_ctor_alias:  q = C(f = p.f).  q's attribute is not monitored yet, so __set__ calls _ensure_monitored_type(value), which
